@@ -20,7 +20,7 @@ func init() {
 			"CancelTaskDelay, which nothing in the product calls; (R2) after a failed run Success is stored only under AllowFailure, " +
 			"otherwise Fail; (R3) no error on the execution path is dropped; (R4) tasks are combined only when their AllowFailure agrees " +
 			"with the head task's; (R5) the combined contexts are written back to the task before the hook runs, so a retry executes " +
-			"the same contexts. NOT decided: the numeric bound 'never shorter than the initial delay', wall-clock behaviour.",
+			"the same contexts. Every assignment of the returned back-off delay keeps the initial delay as a summand (R6). NOT decided: the numeric bound 'never shorter than the initial delay', wall-clock behaviour.",
 		Run: runC04,
 	})
 }
@@ -565,8 +565,24 @@ func runC04R6(c *eng.Ctx, r *eng.RuleCtx) {
 			}
 			return false
 		}
+		plusAssigned := map[ast.Expr]bool{} // right-hand sides of `v += e`: further summands
+		ast.Inspect(f.Decl.Body, func(m ast.Node) bool {
+			if as, isA := m.(*ast.AssignStmt); isA && as.Tok == token.ADD_ASSIGN && len(as.Lhs) == 1 && len(as.Rhs) == 1 && eng.SelObj(info, as.Lhs[0]) == types.Object(v) {
+				plusAssigned[as.Rhs[0]] = true
+			}
+			return true
+		})
 		for _, e := range eng.AssignedExprs(info, f.Decl.Body, v) {
+			if plusAssigned[e] {
+				continue
+			}
 			ex := ast.Unparen(e)
+			if eng.SelObj(info, ex) == init {
+				if _, isIdent := ex.(*ast.Ident); isIdent {
+					adds = true // v := initialDelay, extended with += afterwards
+					continue
+				}
+			}
 			if b, isB := ex.(*ast.BinaryExpr); isB && b.Op == token.ADD && isSumWithInit(b) {
 				adds = true
 				continue
